@@ -675,7 +675,10 @@ func (r *s1run) bindArg(w locSet, callee *ssa.Function, param int, arg ssa.Value
 			if prefix == "" {
 				return l
 			}
-			// depth collapse: "g" -> "f.g"; "g.h" -> "f.g"; "g[]" -> "f.g[]"... tracked as "f.g"
+			// depth collapse: "g" -> "f.g"; "g.h" -> "f.g"; "g[]" -> "f.g[]"; "g.h[]" -> "f.g"
+			if strings.HasSuffix(l, "[]") && !strings.Contains(l, ".") {
+				return prefix + l
+			}
 			base := l
 			if i := strings.IndexAny(base, ".["); i >= 0 {
 				base = base[:i]
